@@ -24,6 +24,7 @@ func allPropsUnsorted() []*propInfo {
 				"NOT decided: clock arithmetic (that attempt_at/expires_at values make a message due again), database semantics, the history-level claim itself.",
 			Assumptions: []string{k1Assumption, "database executes the statements as ent renders them"},
 			Rules: []ruleFn{
+				{ID: "C07.6", Doc: "(shared) leaf and combinator shapes (idiom-bound)", Run: ruleC07_6},
 				{ID: "C04.9", Doc: "[alias] (shared) no predicate list is built by appending twice to one base slice with spare capacity", Run: ruleC04_9},
 				{ID: "C13.3", Doc: "[atoms][dep] (shared) the snapshot watermark is the oldest outstanding delivery's published_at itself: a seek to a fresh snapshot loses nothing that was outstanding", Run: ruleC13_3},
 				{ID: "C15.2", Doc: "[tab] (shared) foreign keys never cascade a delete into deliveries or messages: pruning a predecessor / parent cannot remove an outstanding delivery", Run: ruleC15_2},
@@ -49,6 +50,7 @@ func allPropsUnsorted() []*propInfo {
 				"NOT decided: JSON value equality through jsonb/text storage, duplicates within one response (primary-key fact), histories.",
 			Assumptions: []string{k1Assumption, "protobuf/ent field names correspond one-to-one as in the generated code"},
 			Rules: []ruleFn{
+				{ID: "C07.6", Doc: "(shared) leaf and combinator shapes (idiom-bound)", Run: ruleC07_6},
 				{ID: "C13.3", Doc: "[atoms] (shared) a snapshot records the ack state of ITS subscription only", Run: ruleC13_3},
 				{ID: "C02.1", Doc: "[atoms] pull scoping and response bound", Run: ruleC02_1},
 				{ID: "C02.2", Doc: "[atoms] no unscoped delivery mutation", Run: ruleC02_2, Ctrl: true},
@@ -67,6 +69,7 @@ func allPropsUnsorted() []*propInfo {
 				"C06.5 (shared) a nack selects only outstanding rows, so a late nack of an acked id neither forwards it to the dead-letter topic nor rewrites it. Deliberately not demanded: the completed_at IS NULL guard in modify-deadline (dropping it does not resurrect an acked message: the pull excludes completed rows). C01.2 (shared) ack statements are keyed by exactly the request's ids; C03.5 ack ids are converted completely and in place or the request fails; C04.9 (shared) no aliased predicate appends; C09.2 / C09.3 (shared) commit errors are reported. NOT decided: the history-level claim.",
 			Assumptions: []string{k1Assumption},
 			Rules: []ruleFn{
+				{ID: "C03.6", Doc: "[dep] every StreamingPull frame (the opening one included) reaches the streamer through adaptIn", Run: ruleC03_6},
 				{ID: "C04.9", Doc: "[alias] (shared) no predicate list is built by appending twice to one base slice with spare capacity", Run: ruleC04_9},
 				{ID: "C01.2", Doc: "[atoms] (shared) the ack addresses exactly the requested ids (every one of them): `id IN ids ∧ completed_at IS NULL`, nothing narrower", Run: ruleC01_2},
 				{ID: "C03.1", Doc: "[who] completion is undone only by seek", Run: ruleC03_1, Ctrl: true},
@@ -132,6 +135,7 @@ func allPropsUnsorted() []*propInfo {
 				"NOT decided: 'exactly once' under concurrent PostgreSQL transactions, counting N over histories, topology effects.",
 			Assumptions: []string{k1Assumption},
 			Rules: []ruleFn{
+				{ID: "C17.4", Doc: "[dep] (shared) a dead-letter topic is attached only from a lookup made for the request (live row), never from a cached edge", Run: ruleC17_4},
 				{ID: "C06.1", Doc: "[who] callers of deadLetterDelivery", Run: ruleC06_1, Ctrl: true},
 				{ID: "C06.2", Doc: "[dom][atoms] trigger condition", Run: ruleC06_2},
 				{ID: "C06.3", Doc: "[dom] dead-lettered xor delivered/rescheduled", Run: ruleC06_3},
@@ -153,6 +157,7 @@ func allPropsUnsorted() []*propInfo {
 				"NOT decided: races under PostgreSQL isolation levels, histories, 'inherits no backlog' beyond C12.3.",
 			Assumptions: []string{k1Assumption, "SQLite evaluates LIKE case-insensitively, PostgreSQL case-sensitively (documented behaviour)"},
 			Rules: []ruleFn{
+				{ID: "C17.4", Doc: "[dep] (shared) a dead-letter topic is attached only from a lookup made for the request (live row), never from a cached edge", Run: ruleC17_4},
 				{ID: "C12.1", Doc: "[atoms] live-only name resolution", Run: ruleC12_1, Ctrl: true},
 				{ID: "C12.2", Doc: "[dom] create: exists check, duplicate-key mapping, AlreadyExists", Run: ruleC12_2},
 				{ID: "C12.2", Doc: "[K5] error chain preserved (with %w) between the driver and the duplicate-key test", Run: ruleC12_2chain},
@@ -191,6 +196,7 @@ func allPropsUnsorted() []*propInfo {
 				{ID: "C14.3", Doc: "[dom] every pull restarts the subscription clock", Run: ruleC14_3},
 				{ID: "C14.4", Doc: "[atoms] expiry sweep", Run: ruleC14_4},
 				{ID: "C14.5", Doc: "[K6] negative delay rejected", Run: ruleC14_5},
+				{ID: "C14.6", Doc: "[dep] every write of a subscription's expires_at is now + its expiration TTL (never the message retention)", Run: ruleC14_6},
 				{ID: "C01.3", Doc: "[dom] (shared) the fan-out loads whole subscription rows: retention and delivery delay are not read as zero", Run: ruleC01_3},
 				{ID: "C13.1", Doc: "[atoms] (shared) seek-to-time re-open gives fresh retention", Run: ruleC13_1},
 				{ID: "C13.2", Doc: "[atoms] (shared) seek-to-snapshot re-open gives fresh retention", Run: ruleC13_2},
@@ -226,6 +232,7 @@ func allPropsUnsorted() []*propInfo {
 				"NOT decided: driver/database atomicity, cancellation timing, 'retry has the same effect', the pull's first (expiry-refresh) transaction committing before a later one fails.",
 			Assumptions: []string{k1Assumption, "the SQL driver makes a transaction atomic; Rollback undoes every statement of it"},
 			Rules: []ruleFn{
+				{ID: "C10.8", Doc: "[dep] (C09.9 clause) the ids woken after a commit are the transaction's own values, never package-level state shared between transactions", Run: ruleC10_8},
 				{ID: "C09.1", Doc: "[K5] no storage error is dropped inside a transaction", Run: ruleC09_1, Ctrl: true},
 				{ID: "C09.2", Doc: "[dom] transaction helpers commit iff success", Run: ruleC09_2},
 				{ID: "C09.3", Doc: "[K4][who] wake-ups only after a successful commit", Run: ruleC09_3, Ctrl: true},
@@ -247,6 +254,7 @@ func allPropsUnsorted() []*propInfo {
 				"NOT decided: latency ('promptly'), the PostgreSQL LISTEN/NOTIFY path, schedules as such.",
 			Assumptions: []string{k1Assumption, "Go channel close wakes every receiver; sync.Mutex semantics"},
 			Rules: []ruleFn{
+				{ID: "C10.8", Doc: "[tab] originating wake-ups are announced to the notifier hooks (onlyInternal = false); true only on the receiving side", Run: ruleC10_8},
 				{ID: "C10.1", Doc: "[dom] register before query in every epoch; waited channel is the registered one (C10.2)", Run: ruleC10_1_2},
 				{ID: "C10.3", Doc: "[K2] broadcasts reach every target", Run: ruleC10_3},
 				{ID: "C10.4", Doc: "[dom][who] committing writers notify", Run: ruleC10_4},
@@ -269,6 +277,7 @@ func allPropsUnsorted() []*propInfo {
 				"only (time.Time).IsZero tests establish that a time is non-zero (CheckValid does not)",
 			},
 			Rules: []ruleFn{
+				{ID: "C06.2", Doc: "(shared: the guard of the *DeadLetterTopicID dereference in deadLetterDataFromEntities) [dom][atoms] trigger condition", Run: ruleC06_2},
 				{ID: "C16.1", Doc: "[K6][K10] panic preconditions refuted at every request-tainted call site; nil dereference of absent sub-messages (C16.2)", Run: ruleC16},
 				{ID: "C16.4", Doc: "[K9b] the effective page size is ≥ 1 on every path (no index panic on an empty page)", Run: ruleC16_4},
 				{ID: "C09.4", Doc: "[dom] (shared, C16.3) one operation, one transaction", Run: ruleC09_4},
@@ -345,6 +354,7 @@ func allPropsUnsorted() []*propInfo {
 				"NOT decided: agreement with the documented Pub/Sub semantics over the infinite input space, boolean laws, precedence as implemented by participle.",
 			Assumptions: []string{"participle builds the parser the struct tags describe", k1Assumption},
 			Rules: []ruleFn{
+				{ID: "C08.8", Doc: "[who] the filter parser is built with exactly UseLookahead and Unquote(String): no option that changes the accepted language or rewrites tokens", Run: ruleC08_8},
 				{ID: "C08.6", Doc: "[dom] (shared) a filter text produced by the printer (canonical form) keeps the grouping of negated sub-conditions", Run: ruleC08_6},
 				{ID: "C07.1", Doc: "[dom] routing gate, both directions", Run: ruleC07_1},
 				{ID: "C07.2", Doc: "[K7] exhaustiveness; no captured syntax ignored (C07.3)", Run: ruleC07_2_3},
@@ -365,6 +375,7 @@ func allPropsUnsorted() []*propInfo {
 				"NOT decided: 'accepted iff sentence of the documented grammar', parser totality/termination (third-party participle), full print/parse round-trip.",
 			Assumptions: []string{"participle builds the parser the struct tags describe; its lexer's identifier rule is text/scanner's (letter or '_' first, then letters/digits/'_')"},
 			Rules: []ruleFn{
+				{ID: "C08.8", Doc: "[who] the filter parser is built with exactly UseLookahead and Unquote(String): no option that changes the accepted language or rewrites tokens", Run: ruleC08_8},
 				{ID: "C08.7", Doc: "[compiler prove pass] no index / slice operation in package filter keeps an unproved bounds check", Run: ruleC08_7, Ctrl: true},
 				{ID: "C08.1", Doc: "[who][dom] validate before persist", Run: ruleC08_1},
 				{ID: "C08.2", Doc: "[K9] printer sanitisation", Run: ruleC08_2},
@@ -384,6 +395,8 @@ func allPropsUnsorted() []*propInfo {
 			Rules: []ruleFn{
 				{ID: "C17.1", Doc: "[dep] create mapping is complete", Run: ruleC17_1},
 				{ID: "C17.1", Doc: "[dep] each optional column is read back independently of its siblings", Run: ruleC17_1indep},
+				{ID: "C17.2", Doc: "[dep] the handlers switch on the mask's own path strings, unaltered", Run: ruleC17_2verbatim},
+				{ID: "C17.4", Doc: "[dep] a dead-letter topic is attached only from a lookup made for the request (live row), never from a cached edge", Run: ruleC17_4},
 				{ID: "C17.2", Doc: "[atoms] update-mask locality", Run: ruleC17_2},
 				{ID: "C17.3", Doc: "[dep] the duration codec never truncates a digits-derived float", Run: ruleC17_3},
 			},
